@@ -189,6 +189,46 @@ def c02(seed, tier, broken):
         if not abs(gc2 - t2) <= 1e-9 * (1 + abs(t2)):
             found.append(dict(match="graph-chi2-stale", kind="graph_chi2_after_move", impl=gc2, spec=t2, moved_vertex=v.id, desc=desc))
             return dict(found=found, evaluations=ev)
+        # fixed flags are an optimiser concept: chi2 is the sum over *all* edges whatever is fixed (also edges between two
+        # fixed vertices)
+        for vv in g._vertices:
+            vv.fixed = rng.random() < 0.6
+        if g._edges:
+            for vv in rng.choice(g._edges).vertices:
+                vv.fixed = True
+        gcf = float(g.calc_chi2())
+        ev += 1
+        if not abs(gcf - t2) <= 1e-9 * (1 + abs(t2)):
+            found.append(dict(match="graph-chi2-depends-on-fixed-flags", kind="graph_chi2_fixed", impl=gcf, spec=t2, fixed=[vv.id for vv in g._vertices if vv.fixed], desc=desc))
+            return dict(found=found, evaluations=ev)
+        # offset / measurement are public attributes: an edge first evaluated with the identity offset (what a 2-D .g2o
+        # line gives) and then given its real offset, or edited in place, follows the current values
+        for ei, e in enumerate(g._edges):
+            if type(e).__name__ != "EdgeLandmark":
+                continue
+            real_off = e.offset
+            e.offset = type(real_off).identity()
+            e2 = type(e)(list(e.vertex_ids), np.asarray(e.information), e.estimate, offset=type(real_off).identity(), offset_id=e.offset_id, vertices=list(e.vertices))
+            outs = []
+            for ee in (e, e2):
+                ee.calc_error(), ee.calc_chi2(), ee.calc_jacobians()
+                if rng.random() < 0.5:
+                    ee.offset = real_off.copy()
+                else:
+                    ee.offset[:] = np.asarray(real_off)
+                if rng.random() < 0.5:
+                    ee.estimate[:] = np.asarray(ee.estimate) + 0.25
+                outs.append(ee)
+            for ee in outs:
+                spec = S.edge_error(ee)
+                err = np.asarray(ee.calc_error(), dtype=np.float64)
+                ev += 1
+                if spec is not None:
+                    scale = 1 + float(np.max(np.abs(spec))) + max(float(np.max(np.abs(np.asarray(v.pose)))) for v in ee.vertices) ** 2
+                    if not float(np.max(np.abs(err - spec))) <= 1e-9 * scale or not abs(float(ee.calc_chi2()) - S.edge_chi2(ee, err)) <= 1e-9 * (1 + abs(S.edge_chi2(ee, err))):
+                        found.append(dict(match="edge-error-stale-after-attribute-change", kind="edge_error_history", edge=desc["edges"][ei] if ei < len(desc["edges"]) else None, impl=err.tolist(), spec=spec.tolist(), desc=desc))
+                        return dict(found=found, evaluations=ev)
+        t2 = sum(S.edge_chi2(e) for e in g._edges)
         for e in g._edges:
             e.information = np.asarray(e.information) * 2.0
         gc3 = float(g.calc_chi2())
